@@ -2,13 +2,14 @@
 
 Everything is built from $VERIF_REPO's working tree on every run:
   tlgen (legacy generator, --language=cpp) and tl2gen (--language=go) binaries,
-  the C++ output for a schema + go/hcpp/driver.cpp compiled with g++ -O0 (cached under .work/cppcache by a hash of
-  all generated sources, the driver source and the compiler flags),
+  the C++ output for a schema + go/hcpp/driver.cpp compiled with g++ (codec units -O1, factory/meta/driver -O0; cached
+  under .work/cppcache by a hash of all generated sources, the driver source and the compiler flags),
   the Go output for the same schema + go/hcpp/main.go inside a scratch module `verif.local/h`
   (replace github.com/VKCOM/tl => $VERIF_REPO, GOFLAGS=-mod=mod only there).
 """
 import concurrent.futures
 import hashlib
+import json
 import os
 import re
 import shutil
@@ -95,16 +96,46 @@ def filter_schema(text, exclude_ns):
     return "\n".join(out) + "\n", dropped
 
 
-def build_generators(c):
-    """tlgen and tl2gen from the working tree."""
+HELPERS = os.path.join("internal", "tlcodegen", "helpers_cpp_generated.go")
+RUNTIME_DIR = os.path.join("pkg", "basictl_cpp")
+
+
+def runtime_sync():
+    """The C++ runtime that tlgen emits is a text copy of pkg/basictl_cpp/* embedded in helpers_cpp_generated.go by
+    scripts/move-basictl-cpp.sh. Returns (per-file equality, helpers source re-synchronised with the working tree)."""
+    src = open(os.path.join(REPO, HELPERS)).read()
+    eq = {}
+    out = src
+    for m in re.finditer(r'm\["([^"]+)"\] = `(.*?)`\n', src, re.S):
+        fn, emb = m.group(1), m.group(2)
+        fp = os.path.join(REPO, RUNTIME_DIR, fn)
+        cur = open(fp).read() if os.path.exists(fp) else None
+        eq[fn] = cur == emb
+        if cur is not None and cur != emb and "`" not in cur:
+            out = out.replace(m.group(0), 'm["%s"] = `%s`\n' % (fn, cur))
+    return eq, out
+
+
+def build_generators(c, synced_helpers=None):
+    """tlgen and tl2gen from the working tree. With `synced_helpers` (source text) tlgen is built with that file
+    overlaid over helpers_cpp_generated.go, i.e. as if scripts/move-basictl-cpp.sh had been run."""
     bind = os.path.join(c.workdir, "bin")
     os.makedirs(bind, exist_ok=True)
     res = {}
+    extra = []
+    suffix = ""
+    if synced_helpers is not None:
+        hp = os.path.join(c.workdir, "helpers_cpp_generated.synced.go")
+        open(hp, "w").write(synced_helpers)
+        ov = os.path.join(c.workdir, "overlay-tlgen-synced.json")
+        json.dump({"Replace": {os.path.join(REPO, HELPERS): hp}}, open(ov, "w"))
+        extra = ["-overlay", ov]
+        suffix = "-synced"
     for name in ("tlgen", "tl2gen"):
-        p = os.path.join(bind, name)
+        p = os.path.join(bind, name + suffix)
         if os.path.exists(p):
             os.remove(p)
-        rc, out = run(["go", "build", "-o", p, "./cmd/" + name], cwd=REPO, env=goenv())
+        rc, out = run(["go", "build"] + extra + ["-o", p, "./cmd/" + name], cwd=REPO, env=goenv())
         if rc != 0:
             c.build_failed(name, out)
         res[name] = p
